@@ -71,6 +71,106 @@ func registerEnvIntrinsics(I map[string]Intrinsic) {
 		t := g.vm.lookupType("context", "backgroundCtx")
 		return Iface{T: t, V: zero(t)}
 	}
+	// unix-domain sockets: concrete std types used as handles, methods redirected to vnet
+	vredirect := func(from, to string) {
+		I[from] = func(g *G, a []Value, pos token.Pos) Value {
+			p := g.vm.prog.ImportedPackage(vnetPkg)
+			if p == nil {
+				panic(unsupported("network access without the harness network (zzverif/vnet not loaded)"))
+			}
+			f := p.Func(to)
+			if f == nil {
+				panic(unsupported("vnet redirect target missing: " + to))
+			}
+			g.vm.ex.stubsUsed[from+" -> vnet."+to]++
+			return g.callSSA(f, a, nil, pos)
+		}
+	}
+	vredirect("net.ListenUnix", "UnixListen")
+	vredirect("(*net.UnixListener).AcceptUnix", "UnixAccept")
+	vredirect("(*net.UnixListener).Close", "UnixListenerClose")
+	vredirect("(*net.UnixListener).Addr", "UnixListenerAddr")
+	vredirect("net.DialUnix", "UnixDial")
+	vredirect("(*net.UnixConn).Read", "UnixConnRead")
+	vredirect("(*net.UnixConn).Write", "UnixConnWrite")
+	vredirect("(*net.UnixConn).Close", "UnixConnClose")
+	vredirect("(*net.UnixConn).LocalAddr", "UnixConnLocalAddr")
+	vredirect("(*net.UnixConn).RemoteAddr", "UnixConnRemoteAddr")
+	I["(*net.conn).writeBuffers"] = func(g *G, a []Value, pos token.Pos) Value {
+		// net.Buffers.WriteTo on a *net.UnixConn handle: write the buffers one by one through vnet
+		q := a[0].(*Value)
+		p := g.vm.prog.ImportedPackage(vnetPkg)
+		if p == nil {
+			panic(unsupported("network access without the harness network"))
+		}
+		gl, _ := p.Members["UnixConns"].(*ssa.Global)
+		m, _ := (*g.vm.globalAddr(gl)).(*MapV)
+		var handle *Value
+		if m != nil {
+			for i, k := range m.keys {
+				if !m.live[i] {
+					continue
+				}
+				if hp, ok := k.(*Value); ok && hp != nil {
+					if st, ok := (*hp).(Struct); ok && len(st) > 0 && &st[0] == q {
+						handle = hp
+					}
+				}
+			}
+		}
+		if handle == nil {
+			panic(unsupported("writeBuffers on a connection that is not a vnet handle"))
+		}
+		bufs := a[1].(*Value)
+		total := uint64(0)
+		list, _ := (*bufs).([]Value)
+		for _, b := range list {
+			r := g.callSSA(p.Func("UnixConnWrite"), []Value{handle, b}, nil, pos).(Tuple)
+			total += r[0].(IntV).C
+			if e := r[1].(Iface); e.T != nil {
+				*bufs = []Value(nil)
+				return Tuple{mkInt(total), e}
+			}
+		}
+		*bufs = []Value(nil)
+		return Tuple{mkInt(total), nilErr()}
+	}
+	I["(*net.UnixConn).SyscallConn"] = func(g *G, a []Value, pos token.Pos) Value {
+		// peer credentials (SO_PEERCRED) are outside every claim
+		return Tuple{Iface{}, g.mkError("vnet: no raw connection")}
+	}
+	I["os.Stat"] = func(g *G, a []Value, pos token.Pos) Value {
+		g.vm.ex.stubsUsed["os.Stat (always: not found)"]++
+		return Tuple{Iface{}, g.mkError("vnet: no such file")}
+	}
+	I["os.Remove"] = func(g *G, a []Value, pos token.Pos) Value { return nilErr() }
+	I["os.Chown"] = func(g *G, a []Value, pos token.Pos) Value { return nilErr() }
+	I["os.Chmod"] = func(g *G, a []Value, pos token.Pos) Value { return nilErr() }
+	I["errors.As"] = func(g *G, a []Value, pos token.Pos) Value {
+		// limited: succeeds when the error's dynamic type is the target's element type (no unwrapping chains beyond Unwrap)
+		err := a[0].(Iface)
+		tgt := a[1].(Iface)
+		pt, ok := tgt.T.Underlying().(*types.Pointer)
+		if !ok {
+			panic(unsupported("errors.As target"))
+		}
+		for i := 0; i < 8 && err.T != nil; i++ {
+			if types.Identical(err.T, pt.Elem()) {
+				*(tgt.V.(*Value)) = copyVal(err.V)
+				return mkBool(true)
+			}
+			m := g.vm.lookupMethod(err.T, "Unwrap")
+			if m == nil || m.Signature.Results().Len() != 1 {
+				break
+			}
+			next, ok := g.call(m, []Value{err.V}, pos).(Iface)
+			if !ok {
+				break
+			}
+			err = next
+		}
+		return mkBool(false)
+	}
 	// gorilla/websocket and the HTTP upgrade are redirected to the harness package vws
 	const vwsPkg = "go.nanomsg.org/mangos/v3/zzverif/vws"
 	redirect := func(from, to string) {
